@@ -141,7 +141,7 @@ func init() {
 	register(&Prop{
 		ID:    "C18",
 		Level: "exploration",
-		Rule:  "case = (canonical key-pinning WHERE shape with its literals from the alphabet {a,b,c} up to length 3, optional opaque value conjunct on either side, optional second pinning conjunct, store, batch size, drain mode). The invariant is evaluated over the simulated storage's read trace: every Get key lies in the union of the pinning conjuncts' closed regions; per end detection (delimited by caller polls and by write calls) at most two cursor keys lie outside it, and none inside it is read after one outside; no cursor key lies below the region start; =/IN shapes (alone, with an opaque conjunct, or with a prefix/range conjunct containing all their keys) issue no cursor Next at all and Get-read every surviving key; clauses unsatisfiable on their face issue no Get and no Next. quick samples; thorough enumerates all literal choices per shape. distinct_nontrivial counts distinct (shape tuple, literal tuple, opaque position, mode, batch) with at least one storage read or an unsatisfiable verdict.",
+		Rule:  "case = (canonical key-pinning WHERE shape with its literals from the alphabet {a,b,c} up to length 3, optional opaque value conjunct on either side, optional second pinning conjunct, store, batch size, drain mode). The invariant is evaluated over the simulated storage's read trace: every Get key lies in the union of the pinning conjuncts' closed regions; per end detection (delimited by caller polls and by write calls) at most two cursor keys lie outside it, and none inside it is read after one outside; no cursor key lies below the region start; =/IN shapes (alone, with an opaque conjunct, or with a prefix/range conjunct containing all their keys) issue no cursor Next at all and Get-read every surviving key; clauses unsatisfiable on their face issue no Get and no Next. quick samples; thorough enumerates all literal choices per shape. distinct_nontrivial counts distinct (shape tuple, literal tuple, opaque position, mode, batch) with at least one storage read or an unsatisfiable verdict. quick also draws: byte-level alphabets (8 %: literals and keys relabelled to bytes such as 0x00, 0x7f, 0x80, 0xfe, 0xff), key lists of 65..300 literals with batch sizes 64..1000, literals and keys of 70..300 bytes, chains of 20..300 opaque conjuncts around the pinning ones.",
 		Assumptions: []string{
 			"closed bounds: reading the literal key itself for > and < is not a violation",
 			"'at most one key beyond the end' is read per end detection: up to two keys beyond the region are tolerated per segment (caller poll, or stretch between two write calls), because a plan that drains its child in a loop detects the end when it gets the last rows and again when it gets nothing; the whole-statement count is recorded as a number, not judged",
@@ -727,8 +727,9 @@ func runC18(sc *Scenario, st *Stats) []Violation {
 				Detail: fmt.Sprintf("after an injected error on %s (call #%d): %s | statement: %s | plan: %s", fop, pos, d, pc.Text(), strings.Join(r.Explain, " > ")),
 				Sig:    fmt.Sprintf("shapes=%v opaque=%s mode=%s plan=%s fault-on=%s", shapes, op, r.Mode, planShape(r.Explain), fop)}
 			if len(sc.Faults) == 0 {
-				v.Pinned = cloneScenario(sc)
-				v.Pinned.Faults = flt
+				c := *sc // shared, not copied: nothing mutates a scenario
+				c.Faults = flt
+				v.Pinned = &c
 			}
 			vs = append(vs, v)
 			break
